@@ -314,6 +314,10 @@ fn similar_name(rng: &mut Rng) -> String {
 /// C02's representable domain, decided on the record stream: every name that is present is
 /// non-empty and every line number is < 2^32-1.
 pub fn is_representable(text: &[u8]) -> bool {
+    std::panic::catch_unwind(|| is_representable_inner(text)).unwrap_or(false)
+}
+
+fn is_representable_inner(text: &[u8]) -> bool {
     let lim = (u32::MAX - 1) as usize;
     for r in ProguardMapping::new(text).iter().flatten() {
         match r {
@@ -445,7 +449,16 @@ pub fn neighbours(s: &str) -> Vec<String> {
     v
 }
 
+/// `universe`, but a panic of the crate while reading the records (a defect the checks must
+/// report through the protocol run, not a generator crash) yields an empty universe.
 pub fn universe(text: &[u8]) -> Universe {
+    match std::panic::catch_unwind(|| universe_inner(text)) {
+        Ok(u) => u,
+        Err(_) => Universe { classes: vec![], methods: vec![], args: vec![], lines: vec![], pairs: vec![], originals: vec![] },
+    }
+}
+
+fn universe_inner(text: &[u8]) -> Universe {
     let mut classes = BTreeSet::new();
     let mut methods = BTreeSet::new();
     let mut args = BTreeSet::new();
